@@ -102,7 +102,7 @@ pub fn potential_in(wg: &WallpaperGroup, spec: &MultiSpec) -> Result<PotentialSt
 pub fn custom_group(index: usize) -> (WallpaperGroup<'static>, Vec<Aff>) {
     use crate::geom::{Lin, P};
     let op = |a: f64, b: f64, c: f64, d: f64, tx: f64, ty: f64| Aff { l: Lin { a, b, c, d }, t: P::new(tx, ty) };
-    match index % 3 {
+    match index % 4 {
         0 => (
             statejson::custom_wallpaper_group("p4", packing::CrystalFamily::Tetragonal, vec!["x,y", "-y,x", "-x,-y", "y,-x"]),
             vec![op(1., 0., 0., 1., 0., 0.), op(0., -1., 1., 0., 0., 0.), op(-1., 0., 0., -1., 0., 0.), op(0., 1., -1., 0., 0., 0.)],
@@ -119,6 +119,11 @@ pub fn custom_group(index: usize) -> (WallpaperGroup<'static>, Vec<Aff>) {
                 op(0., 1., 1., 0., 0., 0.),
                 op(0., -1., -1., 0., 0., 0.),
             ],
+        ),
+        3 => (
+            // a two-fold axis is compatible with every lattice: here in a cell of the hexagonal family
+            statejson::custom_wallpaper_group("p2-hexagonal", packing::CrystalFamily::Hexagonal, vec!["x,y", "-x,-y"]),
+            vec![op(1., 0., 0., 1., 0., 0.), op(-1., 0., 0., -1., 0., 0.)],
         ),
         _ => (
             statejson::custom_wallpaper_group("c1m1", packing::CrystalFamily::Orthorhombic, vec!["x,y", "-x,y", "x+1/2,y+1/2", "-x+1/2,y+1/2"]),
